@@ -80,7 +80,7 @@ Relation(op, a, b) ==
   ELSE IF IsIndef(a) \/ IsIndef(b) THEN Indef
   ELSE IF ~SameShape(a, b) THEN Indef
   ELSE IF op \in {"==", "!="} THEN Rel(op, a, b)
-  ELSE IF Ordered(a) THEN Rel(op, a, b) ELSE Indef
+  ELSE IF Ordered(a) /\ Ordered(b) THEN Rel(op, a, b) ELSE Indef
 MapHasKey(m, key) == \E j \in 1..Len(m.v) : Eq(m.v[j][1], key)
 MapGet(m, key) == IF MapHasKey(m, key) THEN m.v[CHOOSE j \in 1..Len(m.v) : Eq(m.v[j][1], key)][2] ELSE Err
 InOp(x, c) ==
